@@ -5,6 +5,12 @@ def main(path):
     rp = json.load(open(path))
     kind = rp.get("kind", "engine")
     if kind == "engine":
+        return engine_replay(rp)
+    mod = importlib.import_module("checks." + rp["property"].lower())
+    return mod.replay(rp)
+
+def engine_replay(rp):
+    if True:
         from harness.explorer import run_labels
         from checks import monsets, common
         factory = monsets.get(rp["monitors"])
